@@ -147,7 +147,7 @@ var pooled = map[string]string{
 }
 
 func l2(r *core.Run) {
-	fq := newFQ()
+	fq := newWatchedFQ(r)
 	red := discover(r, fq)
 	for _, d := range red {
 		if _, ok := pooled[d.name]; !ok {
@@ -245,9 +245,9 @@ func (x *l2run) regex() {
 				}
 			}
 			text := ".[] as [$s,$p,$f] | [try ($s | " + f.text + " | [.]) catch null]"
-			r.StepBegin("L2:regex", "fq evaluating "+f.text+" on "+inText, Case{Section: "L2", Program: f.text, Input: inText})
+			end := x.d.fq.begin("the data driven form of", f.text)
 			outs, err := x.d.fq.s.Eval(data, text)
-			r.StepEnd()
+			end()
 			x.d.fq.tick()
 			if err != nil || len(outs) != len(data) {
 				panic(fmt.Sprintf("c07 harness error: regex driver for %s failed: %v (%d rows of %d)", f.text, err, len(outs), len(data)))
@@ -451,7 +451,9 @@ func (x *l2run) fromjsonValue() {
 	for _, p := range fjvProbes {
 		if _, err := refCompile(p); err != nil {
 			// a probe naming something the reference does not have is not standard jq
-			r.Count("l2_fromjson_value_probes_not_in_reference", 1)
+			if r.ShardIdx == 0 {
+				r.Count("l2_fromjson_value_probes_not_in_reference", 1)
+			}
 			continue
 		}
 		if !seen[p] {
